@@ -523,8 +523,6 @@ static int do_bfs(int argc, char **argv)
 }
 
 /* ------------------------------------------------------------------ replay of a token list */
-static const char *replay_str;
-static const char *replay_trace(void) { return replay_str; }
 static char casebuf[256];
 static const char *case_trace(void) { return casebuf; }
 
@@ -538,16 +536,33 @@ static int unhex(const char *s, uint8_t *out, int max)
 
 static uint8_t tokstore[64][8];
 static int ntokstore;
+static const char *tok_src; static size_t tok_done;   /* token list being executed and how far it got */
+static const char *tokens_trace(void)
+{
+	static char b[512];
+	size_t n = tok_done < sizeof(b) - 1 ? tok_done : sizeof(b) - 1;
+	memcpy(b, tok_src, n); b[n] = 0;
+	return b;
+}
 
+/* executes a token list from reset; violations and crashes are attributed to the prefix executed so far */
 static int run_tokens(const char *s)
 {
-	char *dup = strdup(s), *tok;
+	char tok[64];
+	const char *q = s;
 	int n = 0;
 	nlong = 0; ntokstore = 0;
+	tok_src = s; tok_done = 0; trace_fn = tokens_trace;
 	do_reset();
 	bad = 0;
-	for (tok = strtok(dup, ","); tok; tok = strtok(NULL, ",")) {
+	while (*q) {
 		struct event e; memset(&e, 0, sizeof(e));
+		size_t l = strcspn(q, ",");
+		if (l >= sizeof(tok)) { strcpy(tok, "(too long)"); goto bad_tok; }
+		memcpy(tok, q, l); tok[l] = 0;
+		q += l; tok_done = q - s;
+		if (*q == ',') q++;
+		if (!l) continue;
 		e.kind = tok[0];
 		if (tok[0] == 's') {
 			char *dot = strchr(tok, '.');
@@ -568,7 +583,6 @@ static int run_tokens(const char *s)
 		n++;
 		if (bad) break;      /* the first violation ends the case, as in the search */
 	}
-	free(dup);
 	return n;
 bad_tok:
 	fprintf(res, "{\"harness_error\": \"bad token %s\"}\n", tok); fflush(res); exit(3);
@@ -576,7 +590,6 @@ bad_tok:
 
 static int do_replay(const char *s)
 {
-	replay_str = s; trace_fn = replay_trace;
 	int n = run_tokens(s);
 	fprintf(res, "{\"events\": %d, \"deliveries\": %lu, \"violations\": %lu}\n", n, total_deliveries, nviol);
 	return nviol ? 1 : 0;
@@ -665,6 +678,7 @@ static int do_resync(int part, int nparts)
 		{ "s10.41,P", "s10.7d,P", "s10.5e,P" },
 	};
 	unsigned long ncase = 0, nrun = 0;
+	const unsigned long total = 10 * 2 * 3 * (1 + 5 + 25 + 125) * 6;   /* contiguous blocks: the earliest failing scenario is reported */
 	int o, fa, f, nb, bidx, nc, cidx;
 	trace_fn = case_trace;
 	for (o = 0; o < 10; o++) for (fa = 0; fa < 2; fa++) for (f = 0; f < 3; f++)
@@ -672,7 +686,7 @@ static int do_resync(int part, int nparts)
 	for (bidx = 0; bidx < nbmax; bidx++)
 	for (nc = 0; nc <= 1; nc++) for (cidx = 0; cidx < (nc ? 5 : 1); cidx++) {
 		char *p = casebuf; int x = bidx, i;
-		if (ncase++ % nparts != (unsigned)part) continue;
+		{ unsigned long id = ncase++; if (id < total * part / nparts || id >= total * (part + 1) / nparts) continue; }
 		if (fa) p += sprintf(p, "n41,n00,");
 		if (*OL[o]) p += sprintf(p, "%s,", OL[o]);
 		for (i = 0; i < nb; i++) { p += sprintf(p, "n%s,", NOISE[x % 5]); x /= 5; }
